@@ -102,6 +102,9 @@ def c03(tier):
     # greedy grouping needs several passes
     for i in range(nrandom // 6):
         texts.append(gen.comb_grid(r) if i % 2 == 0 else (gen.walk_grid(r) if i % 4 == 1 else gen.hatch_grid(r, diag="+")))
+    # boxes whose walls are crossed or left by strokes
+    for i in range(nrandom // 6):
+        texts.append(gen.box_with_crossings(r))
     # rails with bars between them: boxes and everything next to a box (bars not under the corners, rails that differ)
     for i in range(nrandom // 6):
         texts.append(gen.rail_grid(r))
@@ -220,6 +223,9 @@ def c06(tier):
         corpus.append("+" + "-" * w + "+\n| \"label %d\"" % i + " " * (w - 12) + " |\n+" + "-" * w + "+  \"q\" --")
     # a tab between two things on one line is one blank cell wherever the line starts
     corpus += ["+--+\t+--+\n|  |\t|  |\n+--+\t+--+", "---\t--->", "a\tb\t\tc", "|\t|\n+-\t-+", "\t/\n/\t"]
+    # a byte order mark (or any other invisible character) as the very first character; empty and short quoted labels at the
+    # left margin (something follows them on the row: a quoted string alone is the known finding)
+    corpus += ["\ufeffStore --> x", "\ufeff+--+\n|  |\n+--+", "\u200b| a", '"" "x" --+\n         |', '""ab "q" |', '"a" -- "" --', '"" |\n"" |']
     # the bundled examples as whole files (up to 2 400 rows; moved down they pass every round number of rows)
     whole = [t.split("# Legend:")[0] for _, t in gen.bundled_files()]
     whole = [t for t in whole if '"' not in t]
@@ -306,6 +312,7 @@ def c10(tier):
         special.append(r.choice(["  ".join(r.choice(gen.LABELS) for _ in range(cnt)), " ".join("|" for _ in range(cnt)),
                                  "  ".join(r.choice(["o", "*", "+", "x1"]) for _ in range(cnt))]))
         special.append(gen.box(r.randint(1, 5), r.randint(1, 3), r.choice(["sharp", "round", "uni"])))
+    special += ["\ufeff.--.\n|  |\n'--'", "\ufeffab --", "+--+\t+--+\n|  |\t|  |\n+--+\t+--+", "--\t-->\n\t|", "a\tb"] * 2
     r.shuffle(special)
     # shapes whose first row starts at their left edge, next to rows ending in a wide character
     for i in range(12):
@@ -490,7 +497,9 @@ LEGENDS = ["# Legend:\na = {fill:red}\n", "# Legend:\nbig = {stroke:blue; fill:n
            "# Legend:\n\na = {fill:red}\n", "# Legend:\na = {fill:red}\n\nb = {stroke:blue}\n",
            "# Legend:\na = {fill:red}\nb2 = {x:y}\n\n\nc = {stroke:blue}",
            # the header alone (with the variants' trailing blanks it is also the very last line, with and without a line ending)
-           "# Legend:", "# Legend:"]
+           "# Legend:", "# Legend:",
+           # the '{' of an entry on the line below its '=' (whatever that is worth, it is worth the same in every variant)
+           "# Legend:\na =\n{fill:red}\nb = {x:y}\n", "# Legend:\nb = {x:y}\na =\n  {fill:red}\n"]
 
 
 def c17(tier):
@@ -602,7 +611,12 @@ def dressed_events(run, r, cases, every, tag, post=None):
             dd[j] = (picked[j][0], "eol")
             dt = picked[j][0]
         if j % 3 != 0:
-            reqs.append({"input": dt, "entry": "settings", "settings": {"scale": r.choice(SCALES)}})
+            st_ = {"scale": r.choice(SCALES)}
+            if j % 2:
+                # ... with the switches and the cosmetic settings at other values too (C18: none of them alters what is drawn)
+                st_.update({"include_styles": r.random() < 0.5, "include_defs": True, "include_backdrop": r.random() < 0.5,
+                            "stroke_width": r.choice([0.5, 2.0, 3.0, 5.0, 20.0]), "font_size": r.choice([7, 14, 40])})
+            reqs.append({"input": dt, "entry": "settings", "settings": st_})
         else:
             reqs.append({"input": dt})
     obs = observe.observe(reqs, tag=tag)
@@ -773,6 +787,7 @@ def c12(tier):
     for i in range(22):
         extra.append("\n".join(cat12[i]))
     extra += ["○", "●--", "⊕", "O", "(_)\n", "*-", "o"]
+    extra += ["+-----------+\n| # Legend: |\n+-----------+", "see # Legend: below\n+--+\n|  |\n+--+", '"# Legend:" -->\n   |', ".-----------.\n| # Legend: a|\n'-----------'"]
     # ... and the arcs of the catalogue tables (quarter, half, three-quarter circles) in the top rows / left columns
     extra += ["\n".join(gen.catalogue_art(r)) for _ in range(40 if tier == "quick" else 600)]
     texts = gen.dedup(corpus + extra + ["", " ", "\n\n", "a"] + pool(r, tier, lambda t: gen.tame(t) and gen.header_at_line_start(t), 900))
@@ -780,6 +795,10 @@ def c12(tier):
     for i, t in enumerate(texts):
         if i % 5 == 3:
             cases.append({"input": t, "entry": "settings", "settings": {"scale": r.choice([0.5, 37.5, 3, 12.5])}})
+        elif i % 5 == 1 and i % 3 == 0:
+            # (the page is a matter of cells and scale: strokes, fonts and switches are not lengths of the drawing)
+            cases.append({"input": t, "entry": "settings", "settings": {"stroke_width": r.choice([3.0, 5.0, 20.0]), "font_size": r.choice([7, 30]),
+                                                                        "include_styles": r.random() < 0.5}})
         else:
             cases.append({"input": t})
     origin = [t for t in extra if t and t[0] != "\n" and any(ch in t for ch in "()○●⊕O*o`'.,")][-90:]
@@ -885,6 +904,12 @@ def c09(tier):
                 lower[r.randrange(L + 2)] = bot
             corpus.append(" " * r.randint(0, 1) + top * L + "\n" + "".join(lower).rstrip())
     corpus += [gen.hatch_grid(r) for _ in range(12)] + [gen.comb_grid(r) for _ in range(12)]
+    # short free runs dropped into pictures of large shapes (a run can lie in the bounding boxes of several separate shapes, in a
+    # box under a long diagonal, inside a frame around everything): each run is still one line, once
+    for i in range(max(80, n // 6)):
+        runs_ = [r.choice(["---", "--", "~~~", "==", "___", "----", "|", "::"]) for _ in range(r.randint(1, 4))]
+        sc_ = gen.scene(r, runs_, wmax=30, hmax=14)
+        corpus.append(gen.framed(sc_) if i % 2 else sc_)
     # strokes that run into a glyph drawing two separate fragments (crosses, double lines): the glyph's cell belongs to two
     # contact groups
     for g in "╳╪╫╬═║┼X#+":
@@ -953,7 +978,7 @@ def c04(tier):
         texts.append(gen.catalogue_scene(r, words))
     # words spelled with the ASCII punctuation that has no drawing meaning, also in the spelling of entity and character
     # references (they are label characters like any other), alone, in boxes and among strokes
-    ewords = ["AT&amp;T", "a&lt;b", "&#39;", "&quot;", "R&D", "50%", "[ok]", "x;y", "a?b", "&amp;amp;", "&gt;", "&nbsp;", "p@q", "$1", "&;", ";&", "&a", "&#x41;"]
+    ewords = ["{}", "a{}", "{}b", "{,}", "{-}", "k:{}", "AT&amp;T", "a&lt;b", "&#39;", "&quot;", "R&D", "50%", "[ok]", "x;y", "a?b", "&amp;amp;", "&gt;", "&nbsp;", "p@q", "$1", "&;", ";&", "&a", "&#x41;"]
     for i in range(max(40, n // 10)):
         ws = [r.choice(ewords) for _ in range(r.randint(1, 3))]
         kind = i % 4
@@ -1033,6 +1058,10 @@ def c15(tier):
                 content = "".join(r.choice(content_alpha) for _ in range(r.randint(0, 8))).replace("\\", "/")
                 if r.random() < 0.04:
                     content = r.choice(["# Legend:", "a # Legend: b", "#Legend", "= {x}"])     # legend-like text is content too
+                elif r.random() < 0.06:
+                    # invisible formatting characters (joiners, marks, a byte order mark): a cell each, verbatim like the rest
+                    j_ = r.randint(0, len(content))
+                    content = content[:j_] + r.choice(["\u200d", "\u200c", "\u200b", "\u2060", "\u200e", "\ufeff", "a\u200db", "\u0646\u200c\u0645"]) + content[j_:]
                 wcells = sum(2 if c in gen.WIDE else 1 for c in content)
                 a += pre + '"' + content + '"'
                 b += pre + " " * (wcells + 2)
@@ -1082,6 +1111,9 @@ def sink_cases(r, n, marker_prefix="mk"):
             # double-width characters after the payload, one to eight of them (every balance of bytes gained by
             # escaping against filler bytes dropped)
             pay = pay + "".join(r.choice(gen.WIDE[:12]) for _ in range(r.randint(1, 8)))
+        if i % 11 == 5:
+            # a control character behind the payload (XML cannot carry most of them: dropped, never written raw)
+            pay = pay + r.choice("\x01\x08\x0b\x0c\x0e\x1b\x7f\x85") + "z"
         if i % 7 == 3:
             # the payload spelled with look-alike delimiters (fullwidth forms, small form variants): characters of their
             # own, which must come out as themselves and never as the ASCII characters they resemble
@@ -1158,6 +1190,10 @@ def c08(tier):
                                       "include_backdrop": r.random() < 0.5}})
         elif i % 4 == 1:
             reqs.append({"input": t, "entry": "compressed", "want_style": True})
+        elif i % 8 == 2:
+            reqs.append({"input": t, "entry": "override", "settings": {}, "w": 400.0, "h": 300.0, "want_style": True})
+        elif i % 8 == 6:
+            reqs.append({"input": t, "entry": "pretty", "want_style": True})
         else:
             reqs.append({"input": t, "want_style": True})
     obs = observe.observe(reqs, tag="C08B")
@@ -1228,6 +1264,11 @@ def c02(tier):
         cases.append(("+--------+\n| {a" + ch + "} |\n+--------+", "tag", [], []))
         cases.append(("+--------+\n| {" + ch + "b,c} |\n+--------+", "tag", [], []))
         cases.append(("+------+\n| {k" + ch + "} |\n+------+\n# Legend:\nk" + ch + " = {fill:red}\n" + ch + "z = {x:y}\n", "legend", [], []))
+    for tagtxt in ["{fill:red}", "{fill: url(t.svg?w=8&h=8)}", "{a:b<c}", "{x: 'y' & z}", "{}", "{ }", "{,}", "{a:}"]:
+        cases.append(("+" + "-" * (len(tagtxt) + 2) + "+\n| " + tagtxt + " |\n+" + "-" * (len(tagtxt) + 2) + "+", "tag", [], []))
+        cases.append((".--------------------------.\n| " + tagtxt.ljust(24) + " |\n'--------------------------'\n  ( " + tagtxt + " )", "tag", [], []))
+    for nm in ["a:hover", "a:not(.b<c&d)", "b::before", "c[x='<']", "d>e", "f,g", "h.i", "j:is(<k>)"]:
+        cases.append(("+--+\n|  |\n+--+\n# Legend:\n" + nm + " = {stroke: red}\nz = {fill:blue}\n", "legend", [], []))
     reqs = []
     combos = [(a, b, c) for a in (True, False) for b in (True, False) for c in (True, False)]
     for i, (t, chan, _, _) in enumerate(cases):
@@ -1238,6 +1279,8 @@ def c02(tier):
             reqs.append({"input": t, "entry": "compressed", "want_style": True})
         elif m == 2:
             reqs.append({"input": t, "entry": "pretty", "want_style": True})
+        elif m == 3 and (i // 5) % 2:
+            reqs.append({"input": t, "entry": "override", "settings": {}, "w": 640.0, "h": 480.0, "want_style": True})
         else:
             a, b, c = combos[(i // 5) % 8]
             st = {"include_styles": True if chan == "legend" else a, "include_defs": b, "include_backdrop": c}
@@ -1505,7 +1548,7 @@ def c05(tier):
                 top[tl], top[W - 1 - tr], bot[bl], bot[W - 1 - br] = ".", ".", "'", "'"
                 rows = ["".join(top)] + ["|" + " " * w + "|"] * h + ["".join(bot)]
                 mixed.append("\n".join((" " * k + x).rstrip() for x in rows))
-    rails = [gen.rail_grid(r) for _ in range(n // 3)]
+    rails = [gen.rail_grid(r) for _ in range(n // 3)] + [gen.box_with_crossings(r) for _ in range(n // 4)]
     observe_events(run, gen.dedup(muts + rnd + corpus + mixed + rails + pool(r, tier, gen.tame, 900)), ["C05s"], "soundness")
     run.samples.append({"input": muts[0]})
     run.validate()
@@ -1663,6 +1706,17 @@ def c13(tier):
         n2 = len(above) + 1
         body = "\n".join(x.rstrip() for x in above) + "\n\n" + "\n".join(" " * k + x for x in cat[idx])
         cases.append((body, {"idx": idx + 1, "k": k, "n": n2, "extra": 4, "lx": 0, "ly": 0, "lch": 0}))
+    # the drawing in a picture of other shapes, touching none of them: inside a frame, between long diagonals, in a box under a
+    # diagonal (it can lie in the bounding boxes of several of them at once) - one circle, once (extra = 5)
+    for j in range(60 if tier == "quick" else 3000):
+        idx = r.choice([0, 1, 1, 3, 4, 5, 6, 8] + list(range(22)))
+        got = gen.scene_with_block(r, list(cat[idx]))
+        if got is None:
+            continue
+        t5, k5, n5 = got
+        if j % 2:
+            t5, k5, n5 = gen.framed(t5), k5 + 2, n5 + 2
+        cases.append((t5, {"idx": idx + 1, "k": k5, "n": n5, "extra": 5, "lx": 0, "ly": 0, "lch": 0}))
     obs = observe.observe([{"input": t} for t, _ in cases], tag="C13B")
     for (t, circ), o in zip(cases, obs):
         run.add_event({"props": ["C13"], "rows": o["rows"], "doc": o["doc"], "circ": circ}, {"input": t, "circ": circ})
@@ -1819,7 +1873,13 @@ PLANS.update({"C14": c14})
 import hashlib as _hashlib
 
 
+OWNISH = ["filled_box", "solid_red", "nofill", "broken", "backdrop1", "bg_filled", "svgbob", "text", "line", "rect", "end_marked_x",
+          "start_marked_circle", "filled", "solid", "nofill2", "arrow", "circle"]
+
+
 def rand_ident(r, maxlen=8):
+    if r.random() < 0.12:
+        return r.choice(OWNISH)          # names that begin like svgbob's own classes are names like any other
     first = r.choice("abcdefghijklmnpqrstuwyz_ABCDEFG")
     return first + "".join(r.choice("abcdefghijklmnpqrstuwyz0123456789_") for _ in range(r.randint(0, maxlen - 1)))
 
@@ -2067,6 +2127,8 @@ def c18(tier):
         corpus.append(r.choice(["\ufeff", "\u200b", "\n", " ", "\t"]) + corpus[i])
     # quoted labels with blanks at their edges (the text a switch must not touch)
     corpus += ['"  -> | <-" --', '+------+\n|" x  "|\n+------+', '" lead"\n"trail "\n"  both  " *--']
+    corpus += ['+-----+\n|"   "|\n+-----+', 'a " " b', '"  "', '+----------+\n|{filled}  |\n+----------+', '.---------.\n| {nofill} |\n\'---------\'  ( {broken} )',
+               '+------------+\n| {bg_filled,solid} |\n+------------+'.replace("+------------+", "+-------------------+")]
     corpus = gen.dedup(corpus + pool(r, tier, None, 150))
     for t in corpus:
         g = [({"input": t, "want_style": True}, None)]
@@ -2231,6 +2293,12 @@ def c01(tier):
     # is large: the conversions run on a 2 MiB stack, the default of a spawned thread)
     texts += ["-" * 25000, "|\n" * 25000, "+" + "-" * 398 + "+\n" + ("|" + " " * 398 + "|\n") * 3000 + "+" + "-" * 398 + "+",
               ("+" * 120 + "\n") * 120, "\n".join(" " * i + "\\" for i in range(390))]
+    # nesting thousands deep: braces in a legend value, braces, brackets and parentheses in the drawing (a grammar that recurses
+    # per opening character must not recurse as deep as the input is long)
+    for opener, closer in (("{", "}"), ("(", ")"), ("[", "]"), ('"', '"')):
+        for depth in (3000, 20000):
+            texts.append("a\n# Legend:\nk = {" + opener * depth + "x" + closer * (depth // 2) + "}\n")
+            texts.append("+--+\n|  |\n+--+ " + opener * depth)
     # every short text over the alphabet of the quote scanner and of the tag parser (small-scope exhaustive: the
     # scanners' case analysis is over a handful of characters)
     import itertools as _it
@@ -2316,6 +2384,10 @@ def c07(tier):
         xs = [x_ for x_, ch in enumerate(D[y]) if ch != " "]
         x_ = r.choice(xs)
         corpus.append("\n".join((x[:x_] + r.choice(["-", "|", "a"]) + x[x_ + 1:] if i_ == y else x) for i_, x in enumerate(D)))
+        corpus.append("\n".join((x[:x_] + " " + x[x_ + 1:] if i_ == y else x).rstrip() for i_, x in enumerate(D)))      # one cell missing
+    # texts whose legend does not parse (words behind the header), among texts whose legend does
+    corpus += ["ab -->\n# Legend: the caption\na = {fill:red}\n", "+--+\n|{a}|\n+--+\n# Legend:\na = {fill:red}\n",
+               "x # Legend: y\n", "o--o {k}\n# Legend:\nk = {stroke:blue}\n"]
     corpus += [gen.box(6, 1, "round", "{a}") + "\n# Legend:\na = {fill:red}", '"quoted" text 一二',
                gen.box(20, 1, "sharp", "{red,big,bold,hot}"), gen.box(12, 2, "uni", "{x1,y2,z3}") + "  ( a )--  ( b )--",
                "  ( a )--\n\n        ( a )--", gen.box(16, 1, "round", "{k1,k2,k3,k4}") + "\n# Legend:\nk1={a}\nk2={b}"]
@@ -2444,6 +2516,26 @@ def c07(tier):
             events.append({"ev": "ret", "proc": p, "thread": c["thread"], "key": keyof[resp["id"]], "sha": sha(resp)})
             meta.append({"input": allreqs[resp["id"]]["input"], "entry": "to_svg", "settings": None, "proc": p,
                          "thread": c["thread"], "position": c["seq"]})
+    # a long history on one thread: a catalogue circle once, then the same drawings with one cell missing several thousand
+    # times over (whatever a matcher keeps between searches - counters, scratch grids - must never decide a later search)
+    hist = []
+    for idx in (3, 4, 6):
+        D = list(cat7[idx])
+        full = "\n".join(D)
+        y = len(D) // 2
+        xs = [x_ for x_, ch in enumerate(D[y]) if ch != " "]
+        opened = "\n".join((x[:xs[-1]] + " " + x[xs[-1] + 1:] if i_ == y else x).rstrip() for i_, x in enumerate(D))
+        top = "\n".join((x[:-1] if i_ == 0 else x).rstrip() for i_, x in enumerate(D))
+        hist += [full] + [opened, top] * (700 if tier == "quick" else 3000)
+    hreqs = [{"id": len(allreqs) + i, "input": t, "entry": "to_svg"} for i, t in enumerate(hist)]
+    for rq in hreqs:
+        allreqs[rq["id"]] = rq
+        keyof[rq["id"]] = "H|" + _hashlib.sha256(rq["input"].encode("utf-8")).hexdigest()[:16]
+    for pno in (2000, 2001):
+        hres = common.run_batch_process(hreqs if pno == 2000 else list(reversed(hreqs)), tag="C07h%d" % pno)
+        for k_, resp in enumerate(hres):
+            events.append({"ev": "ret", "proc": pno, "thread": 0, "key": keyof[resp["id"]], "sha": sha(resp)})
+            meta.append({"input": allreqs[resp["id"]]["input"], "entry": "to_svg", "settings": None, "proc": pno, "thread": 0, "position": k_})
     run.notes["lazy_events"] = lazy_total
     run.notes["processes"] = nprocs + len(thread_counts)
     drift_before = run.drift
@@ -2806,6 +2898,41 @@ def c20(tier):
             except OSError:
                 pass
         run.notes["stalled_uploads_held"] = len(stalled)
+        # clients that leave: a complete POST of a slow drawing and the connection closed before the answer can be ready (a dozen
+        # times), and connections that are reset the moment they are made, nothing sent; after each batch the server answers
+        # everybody else as always
+        import struct as _struct
+        slowb = slow[0].encode("utf-8")
+        for k in range(12):
+            try:
+                s_ = _socket.create_connection(("127.0.0.1", srv.port), timeout=10)
+                s_.sendall(b"POST / HTTP/1.1\r\nHost: 127.0.0.1\r\nContent-Type: text/plain\r\nContent-Length: %d\r\n\r\n" % len(slowb) + slowb)
+                if k % 2:
+                    s_.shutdown(_socket.SHUT_WR)
+                s_.close()
+            except OSError:
+                pass
+        for k in range(20):
+            try:
+                s_ = _socket.create_connection(("127.0.0.1", srv.port), timeout=10)
+                s_.setsockopt(_socket.SOL_SOCKET, _socket.SO_LINGER, _struct.pack("ii", 1, 0))
+                s_.close()          # linger 0: the connection is reset, not closed
+            except OSError:
+                pass
+        time.sleep(1.0)
+
+        def afterwards(cid):
+            out = []
+            for k in range(4):
+                t, want = pool[k % len(pool)]
+                st, body = shells.http_request(srv.port, "POST", "/", t.encode("utf-8"), timeout=120)
+                out.append({"client": cid, "seq": 5000 + 2 * k, "class": "post_ok", "status": st, "body_sha": shells.sha(body), "want_sha": want})
+                st, body = shells.http_request(srv.port, "GET", "/", timeout=90)
+                out.append({"client": cid, "seq": 5001 + 2 * k, "class": "get", "status": st, "body_sha": shells.sha(body), "want_sha": hello_sha})
+            return out
+        with ThreadPoolExecutor(max_workers=4) as ex:
+            for evs in ex.map(afterwards, range(1, 5)):
+                events += evs
         alive = srv.alive()
     finally:
         srv.stop()
